@@ -667,12 +667,16 @@ pub struct FringeStats {
     pub max_len: AtomicU64,
     /// pops whose ub is larger than the ub of the previous pop (diagnostic)
     pub ub_increases: AtomicU64,
-    /// pushes of a sub-problem that is identical (state, depth, value) to one of the sub-problems popped last
+    /// pushes of a sub-problem that is identical (state, depth, value) to the sub-problem the pushing thread popped last
     pub self_requeues: AtomicU64,
     /// pushes of a sub-problem that is not strictly deeper than the sub-problem popped last (sequential only)
     pub non_progress: AtomicU64,
     pub livelock: AtomicBool,
     pub livelock_witness: Mutex<Option<String>>,
+}
+thread_local! {
+    /// (hash(state, depth, value), depth) of the sub-problem popped last by the current thread
+    static POPPED_BY_THIS_THREAD: std::cell::Cell<Option<(u64, usize)>> = const { std::cell::Cell::new(None) };
 }
 pub struct MonFringe<'a, S> {
     inner: Box<dyn Fringe<State = S> + Send + Sync + 'a>,
@@ -687,6 +691,7 @@ pub struct MonFringe<'a, S> {
 }
 impl<'a, S: Hash + Debug> MonFringe<'a, S> {
     pub fn new(inner: Box<dyn Fringe<State = S> + Send + Sync + 'a>, stats: Arc<FringeStats>, abort: Arc<AtomicBool>, sequential: bool, workers: usize) -> Self {
+        POPPED_BY_THIS_THREAD.with(|c| c.set(None));
         MonFringe { inner, stats, abort, last_popped: vec![], requeue_count: HashMap::new(), last_ub: None, sequential, keep: if sequential { 1 } else { 2 * workers.max(1) }, livelock_threshold: 200 }
     }
 }
@@ -695,19 +700,20 @@ impl<S: Hash + Debug> Fringe for MonFringe<'_, S> {
     fn push(&mut self, node: SubProblem<S>) {
         self.stats.pushes.fetch_add(1, AO::Relaxed);
         let h = hash_of(&(node.state.as_ref(), node.depth, node.value));
-        if self.last_popped.iter().any(|(x, _)| *x == h) {
-            self.stats.self_requeues.fetch_add(1, AO::Relaxed);
-            let c = self.requeue_count.entry(h).or_insert(0);
-            *c += 1;
-            if *c >= self.livelock_threshold && !self.stats.livelock.swap(true, AO::SeqCst) {
-                *self.stats.livelock_witness.lock().unwrap() = Some(format!("sub-problem (state {:?}, depth {}, value {}) re-enqueued itself {} times while it was being processed", node.state, node.depth, node.value, *c));
-                self.abort.store(true, AO::SeqCst);
+        // the sub-problem that the *pushing thread* popped last is the one it is processing: the pushes of its cut-set happen
+        // on that very thread (sequential solver: the only thread; parallel solver: the worker that popped it)
+        let mine = POPPED_BY_THIS_THREAD.with(|c| c.get());
+        if let Some((x, d)) = mine {
+            if x == h {
+                self.stats.self_requeues.fetch_add(1, AO::Relaxed);
+                let c = self.requeue_count.entry(h).or_insert(0);
+                *c += 1;
+                if *c >= self.livelock_threshold && !self.stats.livelock.swap(true, AO::SeqCst) {
+                    *self.stats.livelock_witness.lock().unwrap() = Some(format!("sub-problem (state {:?}, depth {}, value {}) re-enqueued itself {} times while it was being processed", node.state, node.depth, node.value, *c));
+                    self.abort.store(true, AO::SeqCst);
+                }
             }
-        }
-        if self.sequential {
-            if let Some((_, d)) = self.last_popped.last() {
-                if node.depth <= *d { self.stats.non_progress.fetch_add(1, AO::Relaxed); }
-            }
+            if node.depth <= d { self.stats.non_progress.fetch_add(1, AO::Relaxed); }
         }
         if std::env::var("VH_TRACE").is_ok() { eprintln!("  [{:?}] PUSH state={:?} depth={} value={} ub={}", std::thread::current().id(), node.state, node.depth, node.value, node.ub); }
         self.inner.push(node);
@@ -722,8 +728,7 @@ impl<S: Hash + Debug> Fringe for MonFringe<'_, S> {
             if let Some(u) = self.last_ub { if n.ub > u { self.stats.ub_increases.fetch_add(1, AO::Relaxed); } }
             self.last_ub = Some(n.ub);
             let h = hash_of(&(n.state.as_ref(), n.depth, n.value));
-            self.last_popped.push((h, n.depth));
-            if self.last_popped.len() > self.keep { self.last_popped.remove(0); }
+            POPPED_BY_THIS_THREAD.with(|c| c.set(Some((h, n.depth))));
         }
         r
     }
